@@ -445,6 +445,10 @@ func (g *gen) genStructLike(fi int, kind string) *sym {
 	for i := 0; i < n; i++ {
 		t := g.anyType(fi, 0)
 		fname := fmt.Sprintf("f%d_%d", g.n, i)
+		if g.r.Chance(1, 4) {
+			// names with a common initialism: naming styles treat them specially
+			fname += []string{"_id", "_url", "_http_api", "_json", "_uuid"}[g.r.Intn(5)]
+		}
 		txt := "  "
 		if !implicit {
 			txt += fmt.Sprintf("%d: ", id)
